@@ -18,7 +18,10 @@ package main
 //   keys_sufficient / sum_spec with labels <operation>-<accessor> (c11_accessors.go: every advertised-keys accessor
 //   against every operation it serves, keys from that accessor only);
 //   circuit_keys_sufficient, circuit_value (c11_circuits.go: lintrans / dft advertised lists, naive and BSGS, sparse packing,
-//   negative and out-of-range diagonal spellings); nonntt_value, nonntt_flag (c11_nonntt.go: coefficient-domain inputs).
+//   negative and out-of-range diagonal spellings); nonntt_value, nonntt_flag (c11_nonntt.go: coefficient-domain inputs);
+//   keysource_value, keyhistory_value, automorphismNTT_spec (c11_keysources.go: every Galois element with keys from every
+//   key source — single-party new / in place / batch, multiparty 1 and 3 parties, compressed, serialised — and after
+//   in-place regeneration over keys of another secret).
 
 import (
 	"fmt"
@@ -442,6 +445,7 @@ func genC11(c *Ctx) {
 	c11Meta(c)
 	c11AccessorLarge(c)
 	c11Circuits(c)
+	c11KeySources(c)
 }
 
 func c11SpecialKs(c *Ctx, slots int, nthRoot uint64) []int {
